@@ -432,6 +432,27 @@ fn temp_counter_sync_never_drops_a_slot() {
 #[cfg(kani)]
 #[kani::proof]
 #[kani::unwind(22)]
+fn gc_mark_behind_cursor_survives_round_end() {
+  // a round swept in several slices: a string marked BEHIND the cursor, in the same round, has been marked since the
+  // sweeper last passed it; it survives the end of the round and the sweeper's next pass over its slot
+  let mut heap = mk_heap(&[Kind::Temp(true), Kind::Temp(true)], 0, false);
+  heap.sweep(1); // passes slot 0
+  assert!(kind_of(&heap, 0) != Kind::Dead);
+  heap.mark(PStr(PStrPrivateRepr::from_id(0))); // behind the cursor
+  heap.sweep(1); // passes slot 1, the cursor wraps: end of the round
+  assert!(kind_of(&heap, 0) != Kind::Dead);
+  heap.sweep(1); // next round reaches slot 0
+  assert!(kind_of(&heap, 0) != Kind::Dead);
+  assert!(PStr(PStrPrivateRepr::from_id(0)).as_str(&heap).len() == S[0].len());
+  // slot 1 was not marked again: it goes with the sweeper's next pass over it
+  heap.sweep(1);
+  assert!(kind_of(&heap, 1) == Kind::Dead);
+  std::mem::forget(heap);
+}
+
+#[cfg(kani)]
+#[kani::proof]
+#[kani::unwind(22)]
 fn gc_mark_step() {
   let kinds = [Kind::Temp(false), Kind::Temp(true)];
   let mut heap = mk_heap(&kinds, 0, false);
